@@ -1,4 +1,5 @@
 import XModel.TableThms
+import XModel.TableLabels
 /-!
 # C07 — table rows addressed by name resolve against the current index column
 Model: `XModel/Table.lean` (`getRowCache`, `getRowIndex`, `resolveCellRow`, `setCell`, `setCol`, `delCol`),
@@ -81,5 +82,69 @@ def exOps : List TOp := [.getIndex (.name "a"), .setCell "name" (.name "b") (.st
 #guard exT.cache.isSome
 #guard scanLookup exT.indexCol "a" 1 0 == some 2 && scanLookup exT.indexCol "a" (-1) 0 == some 4 &&
     scanLookup exT.indexCol "a" 3 0 == none && scanLookup exT.indexCol "b" 0 1 == some 2
+
+/-! ### wrappers of the model-level results (statements as printed by `#check`) -/
+section wrapped
+
+/-- the string forms 'name', 'name::count', 'name<<k', 'name>>k' and their combinations (`mkLabel`), for names that are separator-free and do not end with a separator character, resolve to the position the left-to-right scan defines (`scanLookup`), KeyError when there is none -/
+theorem C07_string_forms_resolve_by_scan :
+    ∀ (t : TableM.Tbl),
+      TableM.Coherent t →
+        TableM.SepsOK t →
+          ∀ (name : String),
+            TableM.strictName t name = true →
+              ∀ (count : Option Int) (o : TableM.LOff),
+                (TableM.getRowIndex t (TableM.Row.name (TableM.mkLabel t name count o))).snd =
+                  TableM.orKeyError
+                    (TableM.scanLookup (TableM.Tbl.indexCol t) name (Option.getD count 0) (TableM.LOff.val o)) :=
+  @TableM.getRowIndex_label
+
+/-- `t[col, 'row']` addresses the row `rows.get_index('row')` gives, for separator-free index columns (the literal-label fast path can then only hit a plain name; false otherwise: `lblBad`) -/
+theorem C07_cell_access_agrees_with_get_index :
+    ∀ (t : TableM.Tbl),
+      TableM.Coherent t →
+        TableM.SepFree t →
+          ∀ (s : String), (TableM.resolveCellRow t (TableM.Row.name s)).snd = (TableM.getRowIndex t (TableM.Row.name s)).snd :=
+  @TableM.resolveCellRow_name
+
+/-- **the unique labels the table reports resolve back to their own row** — for index columns whose names are separator-free and do not end with a separator character (`SepStrict`; the condition is needed: known finding D32, `lblColon`) -/
+theorem C07_unique_labels_resolve (t : Tbl) (h : Coherent t) (hs : SepsOK t) (hn : SepStrict t) (i : Nat)
+    (hi : i < t.indexCol.length) :
+    (getRowIndex t (.name ((uniqueLabels t)[i]'(by rw [uniqueLabels_length]; exact hi)))).2 = .ok (i : Int) :=
+  uniqueLabels_resolve t h hs hn i hi
+
+/-- … and are pairwise distinct -/
+theorem C07_unique_labels_distinct :
+    ∀ (t : TableM.Tbl),
+      TableM.SepsOK t → TableM.SepStrict t → List.Nodup (TableM.uniqueLabels t) :=
+  @TableM.uniqueLabels_nodup
+
+/-- … also after any history of table operations that never writes such a name into the index column and never deletes it -/
+theorem C07_unique_labels_after_history (ops : List TOp) (t : Tbl) (h : Coherent t) (hs : SepsOK t) (hn : SepStrict t)
+    (hdel : ∀ n, TOp.delCol n ∈ ops → n ≠ t.index)
+    (hw : ∀ op ∈ ops, ∀ x ∈ op.writes t.index, strictName t x = true) :
+    (uniqueLabels (ops.foldl applyTOp t)).Nodup ∧
+    ∀ (i : Nat) (hi : i < (ops.foldl applyTOp t).indexCol.length),
+      (getRowIndex (ops.foldl applyTOp t)
+        (.name ((uniqueLabels (ops.foldl applyTOp t))[i]'(by rw [uniqueLabels_length]; exact hi)))).2 = .ok (i : Int) :=
+  history_uniqueLabels ops t h hs hn hdel hw
+
+/-- the string forms after any such history -/
+theorem C07_string_forms_after_history :
+    ∀ (ops : List TableM.TOp) (t : TableM.Tbl),
+      TableM.Coherent t →
+        TableM.SepsOK t →
+          (∀ (n : String), TableM.TOp.delCol n ∈ ops → n ≠ t.index) →
+            ∀ (name : String),
+              TableM.strictName t name = true →
+                ∀ (count : Option Int) (o : TableM.LOff),
+                  (TableM.getRowIndex (List.foldl TableM.applyTOp t ops)
+                        (TableM.Row.name (TableM.mkLabel (List.foldl TableM.applyTOp t ops) name count o))).snd =
+                    TableM.orKeyError
+                      (TableM.scanLookup (TableM.Tbl.indexCol (List.foldl TableM.applyTOp t ops)) name (Option.getD count 0)
+                        (TableM.LOff.val o)) :=
+  @TableM.history_getRowIndex_label
+
+end wrapped
 
 end Properties.C07
